@@ -136,7 +136,7 @@ MUTANTS = {
     "shared_bestTrials_default_again": M("iOpt/solution.py", "        if bestTrials is None:\n            bestTrials = [Trial([], [])]\n", "        if bestTrials is None:\n            bestTrials = Solution._DEFAULT\n", ["C12"], note="revert of fix 2 (class attribute added below)"),
     "shared_holder_default_again": M(SDATA, "        if functionValues is None:\n            functionValues = [FunctionValue()]\n", "        if functionValues is None:\n            functionValues = SearchDataItem._DEFAULT\n", ["C12"], note="revert of fix 3"),
     "class_level_queue": M(SDATA, "        self._RGlobalQueue = CharacteristicsQueue(maxlen)\n        self.__firstDataItem", "        self._RGlobalQueue = SearchData._SHARED_Q\n        self.__firstDataItem", ["C12"]),
-    "first_iteration_rerun_by_solve": M(PROCESS, "        startTime = datetime.now()\n", "        if self.__first_iteration is False and self.method.CheckStopCondition():\n            self.__first_iteration = True\n        startTime = datetime.now()\n", ["C11"]),
+    "first_iteration_rerun_by_solve": M(PROCESS, "        startTime = datetime.now()\n", "        if self.__first_iteration is False:\n            self.method.FirstIteration()\n        startTime = datetime.now()\n", ["C11"], note="the commented-out block in Solve, re-enabled"),
     "getimage_no_copy": M(EVOL, "        self.__TransformP2D()\n        return np.copy(self.yValues)", "        self.__TransformP2D()\n        return self.yValues", ["C17"]),
     "inverse_no_copy_in": M(EVOL, "        self.yValues = np.copy(y)\n        self.__TransformD2P()\n        x = self.__GetXonY()\n        return x\n\n    # ----------------------", "        self.yValues = np.asarray(y, dtype=np.double)\n        self.__TransformD2P()\n        x = self.__GetXonY()\n        return x\n\n    # ----------------------", ["C17"]),
     "setbounds_alias": M(EVOL, "        self.lowerBoundOfFloatVariables = np.copy(lowerBoundOfFloatVariables)\n        self.upperBoundOfFloatVariables = np.copy(upperBoundOfFloatVariables)\n\n    def GetImage", "        self.lowerBoundOfFloatVariables = lowerBoundOfFloatVariables\n        self.upperBoundOfFloatVariables = upperBoundOfFloatVariables\n\n    def GetImage", ["C17"]),
